@@ -245,6 +245,21 @@ func (c *cluster) observe() {
 			continue
 		}
 		switch e.kind {
+		case "precompact":
+			var prevTerm uint64
+			prevKnown := false
+			for _, b := range e.raw {
+				ent, err := decodeEntryBytes(b)
+				if err != nil {
+					break
+				}
+				l.noteEntry(e.nid, ent, prevTerm, prevKnown)
+				prevTerm, prevKnown = ent.term, true
+				if ei := l.entries[[2]uint64{ent.index, ent.term}]; ei != nil {
+					l.noteCommit(ent.index, ent.term, ei, e.nid, e.term)
+				}
+			}
+			c.stats.class("precompact-recorded")
 		case "state":
 			if e.state == Leader {
 				l.leadersElected++
@@ -792,8 +807,8 @@ func (c *cluster) onSnapshotEvent(e *event) {
 	l := c.led
 	m := e.meta
 	c.stats.class("snapshot-stored")
-	if m.index > l.maxCommit {
-		c.fail("snapshot-content", "snapshot-uncommitted", "node %d stored a snapshot at index %d, highest commit index observed anywhere is %d", e.nid, m.index, l.maxCommit)
+	if m.index > l.maxCommit && m.index > e.commit {
+		c.fail("snapshot-content", "snapshot-uncommitted", "node %d stored a snapshot at index %d, its commit index was %d, the highest commit index observed anywhere is %d", e.nid, m.index, e.commit, l.maxCommit)
 		return
 	}
 	if m.index > l.contigCommit {
